@@ -5,6 +5,7 @@ package vkit
 
 import (
 	"runtime"
+	"runtime/debug"
 	"sync"
 )
 
@@ -87,4 +88,21 @@ func ChurnSmall(n int) {
 func GC() {
 	runtime.GC()
 	runtime.GC()
+}
+
+//go:noinline
+func touchStack(n int) byte {
+	var pad [65536]byte
+	pad[n&65535] = 1
+	return pad[(n+7)&65535]
+}
+
+// WithHeadroom runs f with at least ~32KiB of free goroutine stack and no collection (hence no stack
+// shrinking) in between: calls that reach an origin placeholder must not hit the stack-growth path of the
+// relocated prologue (known finding C03/origin-morestack-reentry).
+func WithHeadroom(f func()) {
+	old := debug.SetGCPercent(-1)
+	defer debug.SetGCPercent(old)
+	touchStack(3)
+	f()
 }
